@@ -843,6 +843,33 @@ impl TreeMachine {
                 }
                 out.into_iter().map(fmt_opt).collect::<Vec<_>>().join(" ")
             }
+            ["retarget", n, leaf, extra] | ["retargetfast", n, leaf, extra] => {
+                // `current_leaf_ref` of ItemIterator / FastItemIterator is a public field: safe code can point a
+                // half-consumed iterator at any other leaf (or at none) and keep calling next()
+                let (Ok(n), Ok(leaf), Ok(extra)) = (n.parse::<usize>(), leaf.parse::<u32>(), extra.parse::<usize>()) else { return "bad-op".into() };
+                let m = self.map.as_ref().unwrap();
+                let mut out: Vec<Option<String>> = Vec::new();
+                if ws[0] == "retarget" {
+                    let mut it = m.items();
+                    for _ in 0..n {
+                        out.push(it.next().map(|(k, v)| fkv(k, v)));
+                    }
+                    it.current_leaf_ref = m.get_leaf(leaf);
+                    for _ in 0..extra {
+                        out.push(it.next().map(|(k, v)| fkv(k, v)));
+                    }
+                } else {
+                    let mut it = m.items_fast();
+                    for _ in 0..n {
+                        out.push(it.next().map(|(k, v)| fkv(k, v)));
+                    }
+                    it.current_leaf_ref = m.get_leaf(leaf);
+                    for _ in 0..extra {
+                        out.push(it.next().map(|(k, v)| fkv(k, v)));
+                    }
+                }
+                out.into_iter().map(fmt_opt).collect::<Vec<_>>().join(" ")
+            }
             ["partialrange", lo, hi, n] => {
                 let (Some(lo), Some(hi), Ok(n)) = (pbound(lo), pbound(hi), n.parse::<usize>()) else { return "bad-op".into() };
                 let m = self.map.as_ref().unwrap();
